@@ -1,12 +1,15 @@
 package seq
 
 import (
+	"bytes"
 	"errors"
 	"fmt"
+	"io"
 	"os"
 	"testing"
 
 	"github.com/hashicorp/raft"
+	wal "github.com/hashicorp/raft-wal"
 	"github.com/hashicorp/raft-wal/segment"
 	"pgregory.net/rapid"
 
@@ -25,10 +28,57 @@ type SizeCase struct {
 	Sizes   []int `json:"sizes"` // target encoded sizes of the batch entries
 	Real    bool  `json:"real,omitempty"`
 	After   int   `json:"after"` // small entries appended afterwards
+	// Raw: the WAL runs with a custom codec that stores Data and nothing else, so the listed sizes are the
+	// frame payload lengths themselves, down to 0 (the built-in codec cannot encode fewer than ~20 bytes)
+	Raw bool `json:"raw,omitempty"`
+}
+
+// rawCodec stores nothing but Data.
+type rawCodec struct{}
+
+func (rawCodec) ID() uint64 { return wal.FirstExternalCodecID + 15 }
+func (rawCodec) Encode(l *raft.Log, w io.Writer) error {
+	_, err := w.Write(l.Data)
+	return err
+}
+func (rawCodec) Decode(b []byte, l *raft.Log) error {
+	l.Data = append([]byte(nil), b...)
+	return nil
+}
+
+// checkRaw compares bounds and every entry's Data with the model (the raw codec keeps nothing else).
+func checkRaw(w *wal.WAL, m *refmodel.LogModel) (string, string) {
+	f, err1 := w.FirstIndex()
+	l, err2 := w.LastIndex()
+	if err1 != nil || err2 != nil {
+		return "bounds-err", fmt.Sprintf("FirstIndex/LastIndex = %v / %v", err1, err2)
+	}
+	if f != m.First || l != m.Last {
+		return "bounds", fmt.Sprintf("store [%d,%d] model [%d,%d]", f, l, m.First, m.Last)
+	}
+	for i := m.First; i <= m.Last && m.Last > 0; i++ {
+		want, _ := m.Get(i)
+		var got raft.Log
+		if err := w.GetLog(i, &got); err != nil {
+			return "get-present-err", fmt.Sprintf("GetLog(%d) = %v (payload of %d bytes)", i, err, len(want.Data))
+		}
+		if !bytes.Equal(got.Data, want.Data) {
+			return "get-content", fmt.Sprintf("GetLog(%d) returned %d bytes, stored %d", i, len(got.Data), len(want.Data))
+		}
+	}
+	return "", ""
 }
 
 // solveLog builds an entry at idx whose encoding is exactly target bytes (or
 // the smallest possible if target is below the minimum).
+func rawLog(idx uint64, n int) *raft.Log {
+	l := &raft.Log{Index: idx, Data: make([]byte, n)}
+	for i := range l.Data {
+		l.Data[i] = byte(i*131+int(idx)*17) | 1
+	}
+	return l
+}
+
 func solveLog(idx uint64, target int) *raft.Log {
 	l := &raft.Log{Index: idx, Term: 3, Type: raft.LogCommand}
 	base := refmodel.EncodedLen(l) // with empty data
@@ -86,12 +136,22 @@ func genSizeCase(real bool) func(t *rapid.T) SizeCase {
 			}
 		}
 		c.After = rapid.IntRange(0, 2).Draw(t, "after")
+		c.Raw = rapid.IntRange(0, 3).Draw(t, "raw") == 0
 		return c
 	}
 }
 
 func runSize(c SizeCase) (res common.Result) {
 	cfg := kit.Cfg{SegSize: c.SegSize}
+	mk, check := solveLog, func(w *wal.WAL, m *refmodel.LogModel, extra []uint64) (string, string) {
+		return kit.CheckAgainst(w, m, extra)
+	}
+	if c.Raw {
+		cfg.Codec = rawCodec{}
+		mk = rawLog
+		check = func(w *wal.WAL, m *refmodel.LogModel, _ []uint64) (string, string) { return checkRaw(w, m) }
+		res.Classes = append(res.Classes, "raw-codec")
+	}
 	if c.Real {
 		d, err := os.MkdirTemp("", "verif-size-")
 		if err != nil {
@@ -113,7 +173,7 @@ func runSize(c SizeCase) (res common.Result) {
 	next := uint64(1)
 	small := func(n int) *common.Failure {
 		for i := 0; i < n; i++ {
-			l := solveLog(next, 30+i)
+			l := mk(next, 30+i)
 			if err := w.StoreLogs([]*raft.Log{l}); err != nil {
 				return common.Failf("append-err", "small StoreLogs(%d) = %v", next, err)
 			}
@@ -129,7 +189,7 @@ func runSize(c SizeCase) (res common.Result) {
 	}
 	var batch []*raft.Log
 	for _, s := range c.Sizes {
-		batch = append(batch, solveLog(next+uint64(len(batch)), s))
+		batch = append(batch, mk(next+uint64(len(batch)), s))
 	}
 	err = w.StoreLogs(batch)
 	kit.Barrier(w)
@@ -139,14 +199,14 @@ func runSize(c SizeCase) (res common.Result) {
 		if errors.Is(err, segment.ErrTooBig) {
 			res.Classes = append(res.Classes, "ErrTooBig")
 		}
-		if sig, msg := kit.CheckAgainst(w, m, []uint64{next, next + uint64(len(batch)) - 1}); sig != "" {
+		if sig, msg := check(w, m, []uint64{next, next + uint64(len(batch)) - 1}); sig != "" {
 			res.Fail = common.Failf("refused-but-visible/"+sig, "StoreLogs refused (%v) the batch with encoded sizes %v yet the log changed: %s", err, c.Sizes, msg)
 			return
 		}
 	} else {
 		m.Append(batch)
 		next += uint64(len(batch))
-		if sig, msg := kit.CheckAgainst(w, m, nil); sig != "" {
+		if sig, msg := check(w, m, nil); sig != "" {
 			res.Fail = common.Failf("accepted-unreadable/"+sig, "StoreLogs acknowledged a batch with encoded sizes %v (seg=%d) but: %s", c.Sizes, c.SegSize, msg)
 			return
 		}
@@ -155,7 +215,7 @@ func runSize(c SizeCase) (res common.Result) {
 		res.Fail = f
 		return
 	}
-	if sig, msg := kit.CheckAgainst(w, m, nil); sig != "" {
+	if sig, msg := check(w, m, nil); sig != "" {
 		res.Fail = common.Failf("accepted-unreadable/"+sig, "after follow-up appends (sizes %v seg=%d): %s", c.Sizes, c.SegSize, msg)
 		return
 	}
@@ -165,7 +225,7 @@ func runSize(c SizeCase) (res common.Result) {
 		res.Fail = common.Failf("reopen-err", "Open after storing sizes %v (seg=%d) = %v", c.Sizes, c.SegSize, err)
 		return
 	}
-	if sig, msg := kit.CheckAgainst(w, m, nil); sig != "" {
+	if sig, msg := check(w, m, nil); sig != "" {
 		res.Fail = common.Failf("accepted-unreadable-after-reopen/"+sig, "after reopen (sizes %v seg=%d): %s", c.Sizes, c.SegSize, msg)
 		return
 	}
